@@ -87,14 +87,15 @@ for T in $TIERS; do
   cat "$OUT/corpus_impl.txt" "$OUT/impl.txt" > "$OUT/all_impl.txt"
   N=$(wc -l < "$OUT/all_cases.txt")
   TG=$(date +%s)
-  # model in parallel slices, order preserved
-  split -n "l/$JOBS" -d "$OUT/all_cases.txt" "$OUT/slice."
-  for s in "$OUT"/slice.??; do
-    "$MODEL" < "$s" > "$s.out" &
+  # model in parallel slices (round robin, so that the large cases are spread), order restored afterwards
+  awk -v jobs="$JOBS" -v out="$OUT/slice." '{ print > (out (NR % jobs)) }' "$OUT/all_cases.txt"
+  for k in $(seq 0 $((JOBS - 1))); do
+    [ -f "$OUT/slice.$k" ] || : > "$OUT/slice.$k"
+    "$MODEL" < "$OUT/slice.$k" > "$OUT/slice.$k.out" &
   done
   wait
-  cat "$OUT"/slice.??.out > "$OUT/model.txt"
-  rm -f "$OUT"/slice.??
+  awk -v jobs="$JOBS" -v out="$OUT/slice." -v n="$N" 'BEGIN { for (i = 1; i <= n; i++) { f = out (i % jobs) ".out"; if ((getline line < f) > 0) print line; else print "model-missing-line" } }' > "$OUT/model.txt"
+  rm -f "$OUT"/slice.*
   NM=$(wc -l < "$OUT/model.txt")
   paste -d '\n' "$OUT/all_impl.txt" "$OUT/model.txt" | awk -v cases="$OUT/all_cases.txt" -v out="$OUT/diff.txt" '
     NR % 2 == 1 { impl = $0; next }
